@@ -33,7 +33,11 @@ std::vector<unsigned long> masks08() { std::vector<unsigned long> out; for (auto
 bool too_expensive(const std::string &s) {
     auto num_after = [&](const char *key, uint64_t &v) -> bool {
         size_t p = s.find(key); if (p == std::string::npos) return false; p += strlen(key); v = 0; bool any = false;
-        while (p < s.size() && s[p] >= '0' && s[p] <= '9') { v = v * 10 + (uint64_t) (s[p] - '0'); if (v > (1ULL << 40)) return true; p++; any = true; }
+        // decimals that do not fit 32 bits must be rejected by the parser; a parser that wrongly truncates them would see the low 32 bits,
+        // so the cost is judged on those (the generator only builds such aliases of CHEAP values)
+        unsigned __int128 w = 0; int digits = 0;
+        while (p < s.size() && s[p] >= '0' && s[p] <= '9') { w = w * 10 + (unsigned) (s[p] - '0'); p++; any = true; if (++digits > 24) return true; }
+        v = w > 0xffffffffULL ? (uint64_t) (w & 0xffffffffULL) : (uint64_t) w;
         return any;
     };
     if (s.compare(0, 7, "$argon2") == 0) {
@@ -318,7 +322,15 @@ std::string mutate(const std::string &base, int kind, uint64_t sel, std::string 
     case 11: { how = "reorder-params"; size_t p = s.find("m="), q = s.find(",t="); if (p != std::string::npos && q != std::string::npos) { size_t e = s.find(',', q + 1); if (e != std::string::npos) { std::string mpart = s.substr(p, q - p), tpart = s.substr(q + 1, e - q - 1); s.replace(p, e - p, tpart + "," + mpart); } } break; }
     case 12: { how = "trailing-bits"; if (n) { char c2 = s[n - 1]; s[n - 1] = (c2 == 'A') ? 'B' : (char) (c2 + 1); } break; }
     case 13: { how = "uppercase-prefix"; if (n > 3) s[1] = (char) toupper(s[1]); break; }
-    default: { how = "plus-sign"; size_t p = s.find("t="); if (p != std::string::npos) s.insert(p + 2, "+"); break; }
+    case 14: { how = "plus-sign"; size_t p = s.find("t="); if (p != std::string::npos) s.insert(p + 2, "+"); break; }
+    default: {   // a decimal that only differs from the real value by a multiple of 2^32 / 2^64 (must be rejected, not truncated)
+        static const char *KEYS[] = { "t=", "m=", "p=", "v=" }; const char *key = KEYS[sel % 4]; how = std::string("alias-2^32:") + key;
+        size_t p = s.find(key); if (p == std::string::npos) break; p += 2; size_t e = p; while (e < s.size() && s[e] >= '0' && s[e] <= '9') e++;
+        if (e == p) break;
+        unsigned __int128 v = 0; for (size_t i = p; i < e; i++) v = v * 10 + (unsigned) (s[i] - '0');
+        unsigned __int128 add = ((sel >> 8) % 3 == 0) ? ((unsigned __int128) 1 << 64) : ((unsigned __int128) (1 + (sel >> 10) % 5) << 32);
+        v += add; std::string d; while (v) { d.insert(d.begin(), (char) ('0' + (int) (v % 10))); v /= 10; }
+        s.replace(p, e - p, d); break; }
     }
     return s;
 }
@@ -348,7 +360,7 @@ void explore_mut(Ctx &ctx) {
             base = ref::argon2_encode_string(type, m, t, p, salt, tag);
             c.ops = *rc::gen::inRange(0, 3) ? t : t + 1; c.mem = (size_t) (*rc::gen::inRange(0, 3) ? m : m + 1) * 1024 + (size_t) *rc::gen::inRange(0, 1024);
         }
-        int kind = *rc::gen::weightedElement<int>({ { 4, 0 }, { 6, 1 }, { 3, 2 }, { 3, 3 }, { 3, 4 }, { 1, 5 }, { 2, 6 }, { 1, 7 }, { 1, 8 }, { 1, 9 }, { 1, 10 }, { 1, 11 }, { 1, 12 }, { 1, 13 }, { 1, 14 } });
+        int kind = *rc::gen::weightedElement<int>({ { 4, 0 }, { 6, 1 }, { 3, 2 }, { 3, 3 }, { 3, 4 }, { 1, 5 }, { 2, 6 }, { 1, 7 }, { 1, 8 }, { 1, 9 }, { 1, 10 }, { 1, 11 }, { 1, 12 }, { 1, 13 }, { 1, 14 }, { 3, 15 } });
         c.s = mutate(base, kind, *rc::gen::arbitrary<uint64_t>(), c.how);
         if (*rc::gen::inRange(0, 8) == 0) { c.pw = r.bytes(1 + r.below(10)); c.how += "+other-password"; }
         ctx.cls(std::string("src") + std::to_string(src)); ctx.cls("mut:" + c.how.substr(0, c.how.find('@')));
